@@ -306,6 +306,26 @@ func TestFormatCounts(t *testing.T) {
 	core.MarkExhaustive("formats (0..4 columns x 0..6 result codes x 0..3 parameter codes x 0..2 parameters)")
 }
 
+// TestFlood: tens of thousands of identical small packets on one connection.
+func TestFlood(t *testing.T) {
+	if shard, _ := core.Shard(); shard != 0 {
+		return
+	}
+	for _, k := range []string{"sslrequest", "gssenc", "alternate"} {
+		for _, tls := range []string{"", "empty", "cert"} {
+			core.RunCase(t, "flood", Flood{Kind: k, TLS: tls, N: 60000}, RunFlood)
+		}
+	}
+	for _, k := range []string{"sync", "flush", "empty-query", "stray-copydone", "error-cycle"} {
+		core.RunCase(t, "flood", Flood{Kind: k, N: 40000}, RunFlood)
+	}
+	core.MarkExhaustive("flood (8 packet kinds x TLS configurations, 40-60 thousand packets each)")
+}
+
+func TestReplayFlood(t *testing.T) {
+	core.Replay(t, map[string]func(Flood) core.Result{"flood": RunFlood})
+}
+
 func TestAlloc(t *testing.T) {
 	if shard, _ := core.Shard(); shard != 0 {
 		return
